@@ -22,12 +22,32 @@ and the evidence says so — the behavioural correspondence then carries the tie
   operators ! - & | ^ << >> + - * == != < (shift amounts constant after folding `T::BITS`), `e as T`,
   methods wrapping_add/sub/mul/neg, overflowing_add, calls to other translated functions (`Self::f`, `x.f(..)`),
   `Self(e)`, `self.0`, `Self::TRUE/FALSE`, `T::MAX`, `T::BITS`, integer literals.
+
+Second unit group (written to lean/CB/Gen/DivLimb.lean, which imports CB.Gen.Prim): the word-level division layer
+src/uint/div_limb.rs, 64-bit configuration — `reciprocal`, `lt`, `select`, `short_div`, `div2by1`, `div3by2` and
+`impl Reciprocal { new, default }`; `struct Reciprocal` becomes a Lean structure with the same field names.
+Subset extensions used there (available to every unit):
+  private `const fn`s (per unit), multi-line parameter lists, `&T` parameters;
+  calls across units: bare `f(..)` resolves to the unit itself, then to the units it lists (primitives), `ConstChoice::f(..)`
+  and methods on a `ConstChoice` value resolve to the ConstChoice unit (method chains `ConstChoice::g(x).or(..)`);
+  structs with named integer fields: `s.field`, `Self { a, b: e }`; newtypes `Limb`, `NonZero<Limb>` (`.0` is the word);
+  `let x: T = e`, `let (mut a, b) = e`, assignment `x = e` and compound assignment `x op= e` (each becomes a fresh `let`);
+  `<<`/`>>` by a non-constant amount (release semantics: the amount is taken modulo the bit width);
+  `leading_zeros()` (`BitVec.clz`); `as` between integer types;
+  `while` loops with a data-independent trip count:
+    - `while i > 0 { i -= 1; .. }` with a non-literal `i` becomes a structurally recursive auxiliary definition
+      `<fn>_loop<k> captured.. : Nat → state.. → state` (state = the variables the body assigns, captured = the other
+      variables it reads), called with `i.toNat`; inside round `n + 1` the counter is `BitVec.ofNat w n`;
+    - `let mut i = K; while i < N { ..; i += 1; }` with literal K, N and a body that does not read `i` becomes the same
+      kind of auxiliary definition, called with the literal trip count N - K;
+    - any other loop whose condition can be evaluated (counter and bound literals) is unrolled by executing it
+      symbolically (at most 256 rounds).
 """
 import os, re, sys, json
 
 VERIF = os.path.dirname(os.path.dirname(os.path.abspath(__file__)))
 REPO = os.environ.get('CB_REPO', '/repo')
-OUT = os.path.join(VERIF, 'lean', 'CB', 'Gen', 'Prim.lean')
+GEN = os.path.join(VERIF, 'lean', 'CB', 'Gen')
 
 WIDTH = {'u8': 8, 'u32': 32, 'u64': 64, 'u128': 128, 'Word': 64, 'WideWord': 128, 'usize': 64}
 
@@ -38,7 +58,7 @@ class Unsupported(Exception):
 
 # ------------------------------------------------------------------ tokenizer
 
-TOK = re.compile(r'\s*(?:(//[^\n]*)|(0x[0-9a-fA-F_]+|\d[\d_]*)(u8|u32|u64|u128|usize)?|([A-Za-z_][A-Za-z0-9_]*)|(::|->|<<|>>|==|!=|<=|>=|&&|\|\||[-+*/%&|^!<>=(){}\[\],;:.#]))')
+TOK = re.compile(r'\s*(?:(//[^\n]*)|(0x[0-9a-fA-F_]+|\d[\d_]*)(u8|u32|u64|u128|usize)?|([A-Za-z_][A-Za-z0-9_]*)|(<<=|>>=|::|->|<<|>>|==|!=|<=|>=|&&|\|\||\+=|-=|\*=|\|=|&=|\^=|[-+*/%&|^!<>=(){}\[\],;:.#]))')
 
 
 def tokenize(s):
@@ -61,11 +81,15 @@ def tokenize(s):
     return out
 
 
-# ------------------------------------------------------------------ parser (expressions -> AST tuples)
+# ------------------------------------------------------------------ parser (expressions, statements -> AST tuples)
+
+ASSIGN_OPS = ('=', '+=', '-=', '*=', '|=', '&=', '^=', '<<=', '>>=')
+
 
 class P:
     def __init__(self, toks):
         self.t, self.i = toks, 0
+        self.nostruct = False
 
     def peek(self, k=0):
         return self.t[self.i + k] if self.i + k < len(self.t) else ('eof',)
@@ -80,6 +104,10 @@ class P:
     def at(self, val):
         tok = self.peek()
         return tok[0] in ('op', 'id') and tok[1] == val
+
+    def at_end(self):
+        tok = self.peek()
+        return tok[0] == 'eof' or (tok[0] == 'op' and tok[1] == '}')
 
     # precedence climbing, Rust precedences
     LEVELS = [['||'], ['&&'], ['==', '!=', '<', '>', '<=', '>='], ['|'], ['^'], ['&'], ['<<', '>>'], ['+', '-'], ['*', '/', '%']]
@@ -103,6 +131,10 @@ class P:
 
     def type_(self):
         t = self.eat('id')[1]
+        if self.at('<'):                           # NonZero<Limb>
+            self.eat()
+            t = f'{t}<{self.type_()}>'
+            self.eat('op', '>')
         return t
 
     def unary(self):
@@ -118,12 +150,14 @@ class P:
 
     def args(self):
         self.eat('op', '(')
+        save, self.nostruct = self.nostruct, False
         a = []
         while not self.at(')'):
             a.append(self.expr())
             if self.at(','):
                 self.eat()
         self.eat('op', ')')
+        self.nostruct = save
         return a
 
     def postfix(self):
@@ -138,7 +172,7 @@ class P:
                     if self.at('('):
                         e = ('method', tok[1], e, self.args())
                     else:
-                        raise Unsupported('named field ' + tok[1])
+                        e = ('nfield', e, tok[1])
                 else:
                     raise Unsupported('postfix ' + str(tok))
             else:
@@ -150,6 +184,7 @@ class P:
             self.eat(); return ('lit', tok[1], tok[2])
         if tok[0] == 'op' and tok[1] == '(':
             self.eat()
+            save, self.nostruct = self.nostruct, False
             e = self.expr()
             if self.at(','):
                 items = [e]
@@ -159,8 +194,10 @@ class P:
                         break
                     items.append(self.expr())
                 self.eat('op', ')')
+                self.nostruct = save
                 return ('tuple', items)
             self.eat('op', ')')
+            self.nostruct = save
             return e
         if tok[0] == 'id':
             path = [self.eat()[1]]
@@ -168,20 +205,155 @@ class P:
                 self.eat(); path.append(self.eat('id')[1])
             if self.at('('):
                 return ('call', path, self.args())
+            if self.at('{') and not self.nostruct and len(path) == 1 and path[0][0].isupper():
+                return self.struct_lit(path[0])
             if len(path) == 1:
                 return ('var', path[0])
             return ('path', path)
         raise Unsupported('primary ' + str(tok))
 
+    def struct_lit(self, name):
+        """`Name { a, b: e, .. }`"""
+        self.eat('op', '{')
+        fields = []
+        while not self.at('}'):
+            f = self.eat('id')[1]
+            if self.at(':'):
+                self.eat()
+                fields.append((f, self.expr()))
+            else:
+                fields.append((f, ('var', f)))
+            if self.at(','):
+                self.eat()
+        self.eat('op', '}')
+        return ('struct', name, fields)
+
+    # ---- statements
+    def let_(self):
+        self.eat('id', 'let')
+        if self.at('('):
+            self.eat()
+            names = []
+            while not self.at(')'):
+                if self.at('mut'):
+                    self.eat()
+                names.append(self.eat('id')[1])
+                if self.at(','):
+                    self.eat()
+            self.eat('op', ')')
+            self.eat('op', '=')
+            e = self.expr()
+            self.eat('op', ';')
+            return ('lettuple', names, e)
+        if self.at('mut'):
+            self.eat()
+        name = self.eat('id')[1]
+        ty = None
+        if self.at(':'):
+            self.eat()
+            ty = self.type_()
+        self.eat('op', '=')
+        e = self.expr()
+        self.eat('op', ';')
+        return ('let', name, ty, e)
+
+    def block(self):
+        """statements up to the closing brace / end of input -> (statements, final expression or None)"""
+        stmts = []
+        while True:
+            if self.at_end():
+                return stmts, None
+            tok = self.peek()
+            if tok == ('op', ';'):
+                self.eat()
+            elif tok == ('id', 'let'):
+                stmts.append(self.let_())
+            elif tok == ('id', 'while'):
+                self.eat()
+                self.nostruct = True
+                cond = self.expr()
+                self.nostruct = False
+                self.eat('op', '{')
+                body, fin = self.block()
+                if fin is not None:
+                    raise Unsupported('loop body ends in an expression')
+                self.eat('op', '}')
+                stmts.append(('while', cond, body))
+            elif tok[0] == 'id' and self.peek(1)[0] == 'op' and self.peek(1)[1] in ASSIGN_OPS:
+                name = self.eat()[1]
+                op = self.eat()[1]
+                rhs = self.expr()
+                self.eat('op', ';')
+                stmts.append(('assign', name, op, rhs))
+            else:
+                e = self.expr()
+                if self.at_end():
+                    return stmts, e
+                raise Unsupported('statement at ' + str(self.peek()))
+
+
+def strip_debug_asserts(body):
+    """remove `debug_assert*!( .. );` (balanced parentheses) before tokenizing"""
+    out, pos = '', 0
+    for m in re.finditer(r'\bdebug_assert(?:_eq|_ne)?\s*!\s*\(', body):
+        if m.start() < pos:
+            continue
+        depth, j = 1, m.end()
+        while depth and j < len(body):
+            depth += {'(': 1, ')': -1}.get(body[j], 0)
+            j += 1
+        while j < len(body) and body[j] in ' \t\n':
+            j += 1
+        if j < len(body) and body[j] == ';':
+            j += 1
+        out += body[pos:m.start()]
+        pos = j
+    return out + body[pos:]
+
+
+def free_vars(x, acc):
+    """variable names used in an expression / statement list, in order of first use"""
+    if isinstance(x, list):
+        for y in x:
+            free_vars(y, acc)
+        return acc
+    if not isinstance(x, tuple) or not x:
+        return acc
+    k = x[0]
+    if k == 'var':
+        if x[1] not in acc:
+            acc.append(x[1])
+    elif k == 'assign':
+        if x[1] not in acc:
+            acc.append(x[1])
+        free_vars(x[3], acc)
+    elif k == 'let':
+        free_vars(x[3], acc)
+    elif k == 'lettuple':
+        free_vars(x[2], acc)
+    elif k == 'struct':
+        for _, fe in x[2]:
+            free_vars(fe, acc)
+    elif k in ('lit', 'path'):
+        pass
+    elif k == 'call':
+        free_vars(x[2], acc)
+    else:
+        for y in x[1:]:
+            if isinstance(y, (tuple, list)):
+                free_vars(y, acc)
+    return acc
+
 
 # ------------------------------------------------------------------ function extraction
 
 FN = re.compile(r'((?:\s*#\[[^\]]*\]\s*)*)\s*pub(?:\([a-z]+\))?\s+const\s+fn\s+(\w+)\s*\(([^)]*)\)\s*->\s*([^{]+)\{')
+FN_PRIV = re.compile(r'((?:\s*#\[[^\]]*\]\s*)*)\s*(?:pub(?:\([a-z]+\))?\s+)?const\s+fn\s+(\w+)\s*\(([^)]*)\)\s*->\s*([^{]+)\{')
 
 
-def find_functions(src):
+def find_functions(src, private=False):
     """yield (attrs, name, params, ret, body)"""
-    for m in FN.finditer(src):
+    for m in (FN_PRIV if private else FN).finditer(src):
         depth, j = 1, m.end()
         while depth and j < len(src):
             depth += {'{': 1, '}': -1}.get(src[j], 0)
@@ -202,14 +374,24 @@ def parse_params(ps, self_ty):
     return out
 
 
+# structs with named integer fields: rust name -> (lean name, [(field, type)]); filled while a unit is translated
+STRUCTS = {}
+# newtypes over `Word`: `.0` peels one layer
+WRAP = {'Limb': 'wrap:1', 'NonZero<Limb>': 'wrap:2'}
+
+
 def ty_of(t, self_ty):
     t = t.strip()
+    if t in STRUCTS or (t == 'Self' and self_ty in STRUCTS):
+        return 'struct:' + (self_ty if t == 'Self' else t)
     if t in ('Self', 'ConstChoice'):
         return 'choice' if (self_ty == 'ConstChoice' or t == 'ConstChoice') else None
     if t == 'bool':
         return 'bool'
     if t in WIDTH:
         return WIDTH[t]
+    if t.replace(' ', '') in WRAP:
+        return WRAP[t.replace(' ', '')]
     m = re.match(r'\((.*)\)$', t)
     if m:
         return tuple(ty_of(x, self_ty) for x in m.group(1).split(','))
@@ -223,20 +405,71 @@ def lean_ty(t):
         return 'Bool'
     if isinstance(t, tuple):
         return ' × '.join(lean_ty(x) for x in t)
+    if isinstance(t, str) and t.startswith('struct:'):
+        return STRUCTS[t[7:]][0]
+    if isinstance(t, str) and t.startswith('wrap:'):
+        return 'BitVec 64'
     return f'BitVec {t}'
+
+
+def atom(t):
+    """parenthesize a lean term unless it is an identifier / literal / already one parenthesized group (for argument positions)"""
+    if re.match(r'[\w.#]+$', t):
+        return t
+    if t.startswith('('):
+        depth = 0
+        for j, ch in enumerate(t):
+            depth += {'(': 1, ')': -1}.get(ch, 0)
+            if depth == 0:
+                if j == len(t) - 1:
+                    return t
+                break
+    return f'({t})'
+
+
+def proj(idx, n):
+    """projection of component idx of an n-tuple (right-nested pairs)"""
+    return '.2' * idx + ('.1' if idx < n - 1 else '')
+
+
+def parse_struct(src, name):
+    """`struct Name { a: T, .. }` -> [(field, type)]"""
+    m = re.search(r'\bstruct\s+' + name + r'\s*\{([^}]*)\}', src)
+    if not m:
+        raise Unsupported('struct ' + name + ' not found')
+    fields = []
+    body = re.sub(r'//[^\n]*', '', m.group(1))
+    body = re.sub(r'#\[[^\]]*\]', '', body)
+    for f in [x.strip() for x in body.split(',') if x.strip()]:
+        f = re.sub(r'^pub(?:\([a-z]+\))?\s+', '', f)
+        n, t = [x.strip() for x in f.split(':', 1)]
+        ty = ty_of(t, None)
+        if not isinstance(ty, int):
+            raise Unsupported('field type ' + t)
+        fields.append((n, ty))
+    if not fields:
+        raise Unsupported('empty struct')
+    return fields
 
 
 # ------------------------------------------------------------------ code generation
 
 class Gen:
-    def __init__(self, sigs, self_ty, ns):
+    def __init__(self, sigs, self_ty, ns, ext=None):
         self.sigs, self.self_ty, self.ns = sigs, self_ty, ns
+        self.ext = ext or {}        # 'choice': (namespace, sigs) of the ConstChoice unit; 'use': [(namespace, sigs)] for bare calls
+        self.reset('')
+
+    def reset(self, fname):
+        self.fname, self.cenv, self.aux, self.pn, self.nloop = fname, {}, [], 0, 0
 
     def const(self, e):
-        """fold a constant Nat expression (shift amounts, T::BITS - 1) or return None"""
+        """fold a constant Nat expression (shift amounts, T::BITS - 1, untyped literal counters) or return None"""
         k = e[0]
         if k == 'lit':
             return e[1]
+        if k == 'var' and e[1] in self.cenv:
+            return self.cenv[e[1]]
         if k == 'path' and len(e[1]) == 2 and e[1][1] == 'BITS' and e[1][0] in WIDTH:
             return WIDTH[e[1][0]]
         if k == 'bin' and e[1] in '+-*':
@@ -247,6 +480,31 @@ class Gen:
         if k == 'as':
             return self.const(e[1])
         return None
+
+    def cond_const(self, e):
+        """a comparison of constants -> bool, else None"""
+        if e[0] == 'bin' and e[1] in ('<', '>', '<=', '>=', '==', '!='):
+            a, b = self.const(e[2]), self.const(e[3])
+            if a is None or b is None:
+                return None
+            return {'<': a < b, '>': a > b, '<=': a <= b, '>=': a >= b, '==': a == b, '!=': a != b}[e[1]]
+        return None
+
+    def lookup(self, name, where):
+        """-> (namespace, signature) of a callable, or (None, None)"""
+        if where == 'choice' and self.self_ty != 'ConstChoice':
+            c = self.ext.get('choice')
+            return (c[0], c[1].get(name)) if c else (None, None)
+        if name in self.sigs:
+            return self.ns, self.sigs[name]
+        if where == 'bare':
+            for ns, sg in self.ext.get('use', []):
+                if name in sg:
+                    return ns, sg[name]
+        return None, None
+
+    def is_lit_var(self, e, env):
+        return e[0] == 'var' and e[1] in env and env[e[1]][1] == 'lit'
 
     def ex(self, e, env, want=None):
         """-> (lean text, type)"""
@@ -259,6 +517,10 @@ class Gen:
         if k == 'var':
             if e[1] not in env:
                 raise Unsupported('unknown variable ' + e[1])
+            if env[e[1]][1] == 'lit':
+                if not isinstance(want, int):
+                    raise Unsupported('untyped literal')
+                return f'{env[e[1]][0]}#{want}', want
             return env[e[1]]
         if k == 'path':
             p = e[1]
@@ -273,9 +535,34 @@ class Gen:
             t, ty = self.ex(e[1], env)
             if ty == 'choice' and e[2] == 0:
                 return t, 64
+            if isinstance(ty, str) and ty.startswith('wrap:') and e[2] == 0:
+                d = int(ty[5:])
+                return t, (64 if d == 1 else f'wrap:{d - 1}')
             if isinstance(ty, tuple):
                 return f'({t}).{e[2] + 1}', ty[e[2]]
             raise Unsupported('field of ' + str(ty))
+        if k == 'nfield':
+            t, ty = self.ex(e[1], env)
+            if isinstance(ty, str) and ty.startswith('struct:'):
+                for f, fty in STRUCTS[ty[7:]][1]:
+                    if f == e[2]:
+                        return (f'{t}.{f}' if re.match(r'\w+$', t) else f'({t}).{f}'), fty
+            raise Unsupported('named field ' + e[2])
+        if k == 'struct':
+            name = self.self_ty if e[1] == 'Self' else e[1]
+            if name not in STRUCTS:
+                raise Unsupported('struct literal ' + str(e[1]))
+            lname, fields = STRUCTS[name]
+            given = dict(e[2])
+            if len(given) != len(e[2]) or set(given) != {f for f, _ in fields}:
+                raise Unsupported('struct literal fields')
+            parts = []
+            for f, fty in fields:
+                t, ty = self.ex(given[f], env, fty)
+                if ty != fty:
+                    raise Unsupported(f'field type {ty} for {fty}')
+                parts.append(f'{f} := {t}')
+            return '({ ' + ', '.join(parts) + ' } : ' + lname + ')', 'struct:' + name
         if k == 'tuple':
             parts = [self.ex(x, env, (want[i] if isinstance(want, tuple) else None)) for i, x in enumerate(e[1])]
             return '(' + ', '.join(p[0] for p in parts) + ')', tuple(p[1] for p in parts)
@@ -289,25 +576,36 @@ class Gen:
             return f'(-{t})', ty
         if k == 'as':
             tgt = ty_of(e[2], self.self_ty)
-            t, ty = self.ex(e[1], env, tgt if e[1][0] == 'lit' else None)
+            if not isinstance(tgt, int):
+                raise Unsupported('cast to ' + str(e[2]))
+            t, ty = self.ex(e[1], env, tgt if (e[1][0] == 'lit' or self.is_lit_var(e[1], env)) else None)
             if ty == 'bool':
                 return f'(if {t} then 1#{tgt} else 0#{tgt})', tgt
             if ty == 'choice':
                 ty = 64
             if ty == tgt:
                 return t, tgt
+            if not isinstance(ty, int):
+                raise Unsupported('cast of ' + str(ty))
             return f'({t}).setWidth {tgt}', tgt
         if k == 'bin':
             op = e[1]
             if op in ('<<', '>>'):
                 t, ty = self.ex(e[2], env, want)
+                lop = '<<<' if op == '<<' else '>>>'
                 c = self.const(e[3])
                 if c is None:
-                    raise Unsupported('non-constant shift amount')
-                return f'({t} {"<<<" if op == "<<" else ">>>"} {c})', ty
+                    # release semantics of a non-constant amount: taken modulo the bit width of the shifted value
+                    if not isinstance(ty, int):
+                        raise Unsupported('shift of ' + str(ty))
+                    s, ts = self.ex(e[3], env)
+                    if not isinstance(ts, int) or ty >= 2 ** ts:
+                        raise Unsupported('shift amount type')
+                    return f'({t} {lop} ({s} % {ty}#{ts}))', ty
+                return f'({t} {lop} {c})', ty
             a, ta = None, None
             # literals take the type of the other operand
-            if e[2][0] == 'lit' and not e[2][2]:
+            if (e[2][0] == 'lit' and not e[2][2]) or self.is_lit_var(e[2], env):
                 b, tb = self.ex(e[3], env, want); a, ta = self.ex(e[2], env, tb)
             else:
                 a, ta = self.ex(e[2], env, want); b, tb = self.ex(e[3], env, ta)
@@ -327,7 +625,7 @@ class Gen:
             if op in ('&&', '||'):
                 return f'({a} {op} {b})', 'bool'
             lop = {'&': '&&&', '|': '|||', '^': '^^^', '+': '+', '-': '-', '*': '*'}.get(op)
-            if lop is None or ta == 'bool':
+            if lop is None or ta == 'bool' or not isinstance(ta, int):
                 raise Unsupported('operator ' + op)
             return f'({a} {lop} {b})', ta
         if k == 'method':
@@ -343,27 +641,32 @@ class Gen:
             if name == 'overflowing_add':
                 b, tb = self.ex(args[0], env, tr)
                 return f'(({r} + {b}), decide (({r} + {b}) < {r}))', (tr, 'bool')
+            if name == 'leading_zeros' and isinstance(tr, int) and not args:
+                return (f'(BitVec.clz {atom(r)})' if tr == 32 else f'((BitVec.clz {atom(r)})).setWidth 32'), 32
             if tr == 'choice':
-                return self.call(name, [recv] + args, env)
+                return self.call(name, [recv] + args, env, 'choice')
             raise Unsupported('method ' + name)
         if k == 'call':
             p = e[1]
-            if p == ['Self'] or p == ['ConstChoice']:
+            if (p == ['Self'] and self.self_ty == 'ConstChoice') or p == ['ConstChoice']:
                 t, ty = self.ex(e[2][0], env, 64)
                 if ty != 64:
                     raise Unsupported('Self(non-word)')
                 return t, 'choice'
-            if len(p) == 2 and p[0] in ('Self', 'ConstChoice'):
-                return self.call(p[1], e[2], env)
+            if len(p) == 2 and p[0] == 'Self':
+                return self.call(p[1], e[2], env, 'self')
+            if len(p) == 2 and p[0] == 'ConstChoice':
+                return self.call(p[1], e[2], env, 'choice')
             if len(p) == 1:
-                return self.call(p[0], e[2], env)
+                return self.call(p[0], e[2], env, 'bare')
             raise Unsupported('call ' + '::'.join(p))
         raise Unsupported('expr ' + k)
 
-    def call(self, name, args, env):
-        if name not in self.sigs:
+    def call(self, name, args, env, where='self'):
+        ns, sig = self.lookup(name, where)
+        if sig is None:
             raise Unsupported('call to untranslated ' + name)
-        ptys, rty = self.sigs[name]
+        ptys, rty = sig
         if len(ptys) != len(args):
             raise Unsupported('arity ' + name)
         parts = []
@@ -371,64 +674,189 @@ class Gen:
             t, ty = self.ex(a, env, pt)
             if ty != pt and not (ty == 64 and pt == 'choice') and not (ty == 'choice' and pt == 64):
                 raise Unsupported(f'argument type {ty} for {pt} in {name}')
-            parts.append(t)
-        return f'({self.ns}.{name} ' + ' '.join(parts) + ')', rty
+            parts.append(atom(t))
+        return f'({ns}.{name} ' + ' '.join(parts) + ')', rty
+
+    # ---- statements
+    def bind(self, v, t, ty, env, lines):
+        nm = self.fresh(v, env)
+        lines.append(f'let {nm} := {t}')
+        env[v] = (nm, ty)
+        self.cenv.pop(v, None)
+
+    def run(self, stmts, env, lines, declared=None):
+        """execute statements symbolically: appends lean `let` lines, updates env (rust name -> (lean text, type))"""
+        for st in stmts:
+            k = st[0]
+            if k == 'let':
+                _, name, ann, e = st
+                if declared is not None:
+                    declared.add(name)
+                if ann is None and e[0] == 'lit' and not e[2]:
+                    # `let mut i = 0;` — an untyped counter: tracked as a constant, no lean text
+                    env[name] = (str(e[1]), 'lit')
+                    self.cenv[name] = e[1]
+                    continue
+                want = ty_of(ann, self.self_ty) if ann else None
+                t, ty = self.ex(e, env, want)
+                self.bind(name, t, ty, env, lines)
+            elif k == 'lettuple':
+                _, names, e = st
+                t, ty = self.ex(e, env)
+                if not isinstance(ty, tuple) or len(ty) != len(names) or len(names) < 2:
+                    raise Unsupported('tuple pattern on non-pair')
+                self.pn += 1
+                tmp = f'p{self.pn}'
+                lines.append(f'let {tmp} := {t}')
+                for idx, v in enumerate(names):
+                    if v != '_' and not v.startswith('_'):
+                        if declared is not None:
+                            declared.add(v)
+                        self.bind(v, f'{tmp}{proj(idx, len(names))}', ty[idx], env, lines)
+            elif k == 'assign':
+                _, name, op, rhs = st
+                if name not in env:
+                    raise Unsupported('assignment to unknown ' + name)
+                e = rhs if op == '=' else ('bin', op[:-1], ('var', name), rhs)
+                cur = env[name][1]
+                if cur == 'lit':
+                    c = self.const(e)
+                    if c is None or c < 0:
+                        raise Unsupported('non-constant assignment to an untyped counter')
+                    env[name] = (str(c), 'lit')
+                    self.cenv[name] = c
+                    continue
+                t, ty = self.ex(e, env, cur)
+                if ty != cur:
+                    raise Unsupported(f'assignment changes the type of {name}')
+                self.bind(name, t, ty, env, lines)
+            elif k == 'while':
+                self.do_while(st[1], st[2], env, lines)
+            else:
+                raise Unsupported('statement ' + k)
+
+    def run_scoped(self, stmts, env, lines):
+        """a loop body: its `let`s are local, its assignments to outer variables persist"""
+        inner, declared = dict(env), set()
+        self.run(stmts, inner, lines, declared)
+        if declared & set(env):
+            raise Unsupported('loop body shadows an outer variable')
+        for v in env:
+            env[v] = inner[v]
+        for v in declared:
+            self.cenv.pop(v, None)
+
+    def do_while(self, cond, body, env, lines):
+        c = self.cond_const(cond)
+        if c is not None:
+            # (1a) `let mut i = K; while i < N { ..; i += 1; }` with literal K, N and a body that does not read `i`:
+            #      an auxiliary definition by recursion on the trip count, called with the literal N - K
+            if (cond[1] == '<' and cond[2][0] == 'var' and cond[2][1] in self.cenv and body
+                    and body[-1][0] == 'assign' and body[-1][1] == cond[2][1] and body[-1][2] == '+='
+                    and body[-1][3][0] == 'lit' and body[-1][3][1] == 1
+                    and cond[2][1] not in free_vars(body[:-1], []) and cond[2][1] not in free_vars(cond[3], [])
+                    and any(st[0] == 'assign' for st in body[:-1])):
+                i = cond[2][1]
+                bound = self.const(cond[3])
+                trip = max(bound - self.cenv[i], 0)
+                self.emit_loop(body[:-1], None, env, lines, str(trip))
+                if trip:
+                    env[i] = (str(bound), 'lit')
+                    self.cenv[i] = bound
+                return
+            # (1b) any other loop whose condition is a comparison of constants: executed symbolically (unrolled)
+            rounds = 0
+            while c:
+                rounds += 1
+                if rounds > 256:
+                    raise Unsupported('loop too long to unroll')
+                self.run_scoped(body, env, lines)
+                c = self.cond_const(cond)
+                if c is None:
+                    raise Unsupported('loop condition stopped being constant')
+            return
+        # (2) `while i > 0 { i -= 1; .. }`: structural recursion on i.toNat
+        if not (cond[0] == 'bin' and cond[1] == '>' and cond[2][0] == 'var' and cond[3][0] == 'lit' and cond[3][1] == 0):
+            raise Unsupported('loop form')
+        i = cond[2][1]
+        if i not in env or not isinstance(env[i][1], int):
+            raise Unsupported('loop counter')
+        ti, w = env[i]
+        if not body or not (body[0][0] == 'assign' and body[0][1] == i and body[0][2] == '-='
+                            and body[0][3][0] == 'lit' and body[0][3][1] == 1):
+            raise Unsupported('loop form: the body must start with the decrement of the counter')
+        self.emit_loop(body[1:], (i, w), env, lines, f'({ti}).toNat')
+        env[i] = (f'0#{w}', w)
+
+    def emit_loop(self, rest, counter, env, lines, count):
+        """the loop as an auxiliary definition `<fn>_loop<k> captured.. : Nat → state.. → state` by recursion on the
+        number of remaining rounds; `counter` = (rust name, width) when the body reads the (already decremented)
+        counter, which is `BitVec.ofNat width n` in round `n + 1`; `count` = lean text of the trip count"""
+        i = counter[0] if counter else None
+        state = []
+        for st in rest:
+            if st[0] == 'while':
+                raise Unsupported('nested loop')
+            if st[0] == 'assign' and st[1] not in state:
+                state.append(st[1])
+        if i in state or any(s not in env or env[s][1] == 'lit' for s in state) or not state:
+            raise Unsupported('loop state')
+        captured = [v for v in free_vars(rest, []) if v in env and v not in state and v != i]
+        if any(env[v][1] == 'lit' for v in captured):
+            raise Unsupported('loop body reads an untyped counter')
+        self.nloop += 1
+        aux = f'{self.fname}_loop{self.nloop}'
+        env2 = {}
+        for v in captured + state:
+            env2[v] = (self.fresh(v, env2), env[v][1])
+        nvar = self.fresh('n', env2)
+        env2['\0n'] = (nvar, 'nat')
+        lines2 = []
+        if counter:
+            env2[i] = (self.fresh(i, env2), counter[1])
+            lines2.append(f'let {env2[i][0]} := BitVec.ofNat {counter[1]} {nvar}')
+        outer = set(env2)
+        declared = set()
+        pat = ', '.join(env2[s][0] for s in state)
+        capb = ''.join(f' ({env2[v][0]} : {lean_ty(env2[v][1])})' for v in captured)
+        capa = ''.join(f' {env2[v][0]}' for v in captured)
+        styp = [env[s][1] for s in state]
+        self.run(rest, env2, lines2, declared)
+        if declared & outer:
+            raise Unsupported('loop body shadows an outer variable')
+        if any(env2[s][1] != ty for s, ty in zip(state, styp)):
+            raise Unsupported('loop state changes type')
+        res = ' × '.join(lean_ty(t) for t in styp)
+        text = (f'@[gen_defs] def {aux}{capb} : Nat → ' + ' → '.join(lean_ty(t) for t in styp) + f' → {res}\n'
+                + f'  | 0, {pat} => ' + (f'({pat})' if len(state) > 1 else pat) + '\n'
+                + f'  | {nvar} + 1, {pat} =>\n    ' + '\n    '.join(lines2)
+                + f'\n    {self.ns}.{aux}{capa} {nvar} ' + ' '.join(env2[s][0] for s in state))
+        self.aux.append(text)
+        callt = f'({self.ns}.{aux}' + ''.join(f' {env[v][0]}' for v in captured) + f' {count} ' + ' '.join(env[s][0] for s in state) + ')'
+        if len(state) == 1:
+            self.bind(state[0], callt, styp[0], env, lines)
+        else:
+            self.pn += 1
+            tmp = f'p{self.pn}'
+            lines.append(f'let {tmp} := {callt}')
+            for idx, s in enumerate(state):
+                self.bind(s, f'{tmp}{proj(idx, len(state))}', styp[idx], env, lines)
 
     def body(self, body, env, rty):
-        """statements -> lean lines"""
-        # split on ';' at depth 0
-        stmts, depth, cur = [], 0, ''
+        """function body -> lean lines"""
         body = re.sub(r'//[^\n]*', '', body)
         body = re.sub(r'#\[[^\]]*\]', '', body)
-        for ch in body:
-            if ch in '({[':
-                depth += 1
-            if ch in ')}]':
-                depth -= 1
-            if ch == ';' and depth == 0:
-                stmts.append(cur.strip()); cur = ''
-            else:
-                cur += ch
-        final = cur.strip()
+        body = strip_debug_asserts(body)
+        pr = P(tokenize(body))
+        stmts, final = pr.block()
+        if pr.peek()[0] != 'eof':
+            raise Unsupported('trailing tokens in body')
+        if final is None:
+            raise Unsupported('no final expression')
         lines = []
         env = dict(env)
-        n = 0
-        for s in stmts:
-            if not s or s.startswith('debug_assert'):
-                continue
-            m = re.match(r'let\s+(mut\s+)?(\w+)\s*(?::\s*[\w:]+\s*)?=\s*(.*)$', s, re.S)
-            m2 = re.match(r'let\s+\(\s*(\w+)\s*,\s*(\w+)\s*\)\s*=\s*(.*)$', s, re.S)
-            if m2:
-                t, ty = self.ex(P(tokenize(m2.group(3))).expr(), env)
-                if not isinstance(ty, tuple) or len(ty) != 2:
-                    raise Unsupported('tuple pattern on non-pair')
-                n += 1
-                tmp = f'p{n}'
-                lines.append(f'let {tmp} := {t}')
-                for idx, v in enumerate((m2.group(1), m2.group(2))):
-                    if v != '_' and not v.startswith('_'):
-                        nm = self.fresh(v, env)
-                        lines.append(f'let {nm} := {tmp}.{idx + 1}')
-                        env[v] = (nm, ty[idx])
-                continue
-            if m:
-                pr = P(tokenize(m.group(3)))
-                e = pr.expr()
-                if pr.peek()[0] != 'eof':
-                    raise Unsupported('trailing tokens in let')
-                t, ty = self.ex(e, env)
-                nm = self.fresh(m.group(2), env)
-                lines.append(f'let {nm} := {t}')
-                env[m.group(2)] = (nm, ty)
-                continue
-            raise Unsupported('statement: ' + s[:40])
-        if not final:
-            raise Unsupported('no final expression')
-        pr = P(tokenize(final))
-        e = pr.expr()
-        if pr.peek()[0] != 'eof':
-            raise Unsupported('trailing tokens in final expression')
-        t, ty = self.ex(e, env, rty)
+        self.run(stmts, env, lines)
+        t, ty = self.ex(final, env, rty)
         if ty != rty and not (ty == 64 and rty == 'choice') and not (ty == 'choice' and rty == 64):
             raise Unsupported(f'return type {ty} vs {rty}')
         lines.append(t)
@@ -443,7 +871,7 @@ class Gen:
         return nm
 
 
-def translate_file(path, ns, self_ty, want=None):
+def translate_file(path, ns, self_ty, want=None, private=False, ext=None):
     src = open(path).read()
     if self_ty:
         m = re.search(r'impl\s+' + self_ty + r'\s*\{', src)
@@ -455,7 +883,7 @@ def translate_file(path, ns, self_ty, want=None):
             j += 1
         src = src[m.end():j - 1]
     fns = []
-    for attrs, name, params, ret, body in find_functions(src):
+    for attrs, name, params, ret, body in find_functions(src, private):
         if 'target_pointer_width = "32"' in attrs:
             continue
         if want and name not in want:
@@ -465,7 +893,7 @@ def translate_file(path, ns, self_ty, want=None):
     for name, params, ret, body in fns:
         try:
             ps = parse_params(params, self_ty)
-            ptys = [ty_of(t, self_ty) if n != 'self' else 'choice' for n, t in ps]
+            ptys = [ty_of(t, self_ty) if n != 'self' else ('choice' if self_ty == 'ConstChoice' else ty_of('Self', self_ty)) for n, t in ps]
             rty = ty_of(ret, self_ty)
             if any(t is None for t in ptys) or rty is None:
                 raise Unsupported('type')
@@ -473,7 +901,7 @@ def translate_file(path, ns, self_ty, want=None):
         except Unsupported:
             pass
     out, failed = {}, {}
-    g = Gen(sigs, self_ty, ns)
+    g = Gen(sigs, self_ty, ns, ext)
     for name, params, ret, body in fns:
         if name not in sigs:
             failed[name] = 'signature outside the supported subset'
@@ -482,81 +910,147 @@ def translate_file(path, ns, self_ty, want=None):
         try:
             env = {}
             binders = []
+            g.reset(name)
             for (n, _), t in zip(plist[name], ptys):
                 ln = 'self_' if n == 'self' else n
                 env[n] = (ln, t)
                 binders.append(f'({ln} : {lean_ty(t)})')
             lines = g.body(body, env, rty)
-            out[name] = (f'@[gen_defs] def {name} ' + ' '.join(binders) + f' : {lean_ty(rty)} :=\n  ' + '\n  '.join(lines))
+            out[name] = ''.join(a + '\n\n' for a in g.aux) + (f'@[gen_defs] def {name} ' + ''.join(b + ' ' for b in binders) + f': {lean_ty(rty)} :=\n  ' + '\n  '.join(lines))
         except Unsupported as ex:
             failed[name] = str(ex)
             sigs.pop(name, None)   # callers of an untranslated function are untranslated too (detected at call)
-    return [n for n, _, _, _ in fns], out, failed
+    # a caller translated before its (later, failing) callee was reached: untranslated too
+    changed = True
+    while changed:
+        changed = False
+        for name in list(out):
+            for f in failed:
+                if re.search(re.escape(f'{ns}.{f}') + r'(?![\w.])', out[name]):
+                    failed[name] = 'call to untranslated ' + f
+                    del out[name]
+                    sigs.pop(name, None)
+                    changed = True
+                    break
+    return [n for n, _, _, _ in fns], out, failed, sigs
 
 
-UNITS = [
-    # (rust file, lean namespace, impl type or None, description)
-    ('src/primitives.rs', 'CB.Gen.Prim', None, 'word primitives'),
-    ('src/const_choice.rs', 'CB.Gen.Choice', 'ConstChoice', 'ConstChoice: masks, comparison predicates, selects'),
+DIV_LIMB = 'src/uint/div_limb.rs'
+FILES = [
+    # (generated file, imports, units); a unit: rust file, lean namespace, impl type or None, description, options
+    ('Prim.lean', ['CB.Gen.Attr'], [
+        dict(key='prim', rel='src/primitives.rs', ns='CB.Gen.Prim', self_ty=None, desc='word primitives'),
+        dict(key='choice', rel='src/const_choice.rs', ns='CB.Gen.Choice', self_ty='ConstChoice',
+             desc='ConstChoice: masks, comparison predicates, selects'),
+    ]),
+    ('DivLimb.lean', ['CB.Gen.Prim', None, 'set_option linter.unusedVariables false'], [
+        dict(key='div_limb', rel=DIV_LIMB, ns='CB.Gen.DivLimb', self_ty=None,
+             desc='word-level division: reciprocal, short_div, div2by1, div3by2 (64-bit configuration)',
+             want=['reciprocal', 'lt', 'select', 'short_div', 'div2by1', 'div3by2'], private=True,
+             struct='Reciprocal', use=['prim']),
+        dict(key='reciprocal', rel=DIV_LIMB, ns='CB.Gen.DivLimb.Reciprocal', self_ty='Reciprocal',
+             desc='impl Reciprocal', want=['new', 'default'], use=['div_limb', 'prim']),
+    ]),
 ]
+
+AUX = re.compile(r'\w+_loop\d+$')
+
+
+def read_last(path):
+    """previously generated definitions, by (namespace, name): kept for functions that cannot be re-translated;
+    an auxiliary loop definition stays with the function it precedes; structures by (namespace, 'structure Name')"""
+    last = {}
+    if not os.path.exists(path):
+        return last
+    cur_ns, pending = None, ''
+    txt = open(path).read()
+    for blk in re.split(r'\n(?=namespace |@\[gen_defs\] def |structure |end )', txt):
+        m = re.match(r'namespace (\S+)', blk)
+        if m:
+            cur_ns, pending = m.group(1), ''
+        m = re.match(r'structure (\w+)', blk)
+        if m and cur_ns:
+            last[(cur_ns, 'structure ' + m.group(1))] = blk.rstrip()
+        m = re.match(r'@\[gen_defs\] def (\w+)', blk)
+        if m and cur_ns:
+            if AUX.match(m.group(1)):
+                pending += blk.rstrip() + '\n\n'
+            else:
+                last[(cur_ns, m.group(1))] = pending + blk.rstrip()
+                pending = ''
+    return last
 
 
 def main():
-    last = {}
-    if os.path.exists(OUT):
-        # previously generated definitions, by (namespace, name): kept for functions that cannot be re-translated
-        cur_ns = None
-        txt = open(OUT).read()
-        for blk in re.split(r'\n(?=namespace |@\[gen_defs\] def |end )', txt):
-            m = re.match(r'namespace (\S+)', blk)
-            if m:
-                cur_ns = m.group(1)
-            m = re.match(r'@\[gen_defs\] def (\w+)', blk)
-            if m and cur_ns:
-                last[(cur_ns, m.group(1))] = blk.rstrip()
-    parts = ['/- GENERATED by tools/translate.py from /repo on every check run. Do not edit. -/', 'import CB.Gen.Attr', '']
     report = dict(translated=[], kept_last=[], missing=[])
-    for rel, ns, self_ty, desc in UNITS:
-        path = os.path.join(REPO, rel)
-        parts.append(f'/-! {desc} ({rel}) -/')
-        parts.append(f'namespace {ns}')
-        try:
-            order, out, failed = translate_file(path, ns, self_ty)
-        except (Unsupported, OSError) as ex:
-            order, out, failed = [], {}, {'*': str(ex)}
-        names = list(order)
-        for (lns, n) in last:
-            if lns == ns and n not in names:
-                names.append(n)      # a function that vanished from the source: keep the last translation
-        # emit in dependency order: a definition after everything it calls
-        emitted = set()
-        texts = {}
-        for n in names:
-            if n in out:
-                texts[n] = out[n]; report['translated'].append(f'{ns}.{n}')
-            elif (ns, n) in last:
-                texts[n] = last[(ns, n)]; report['kept_last'].append(dict(fn=f'{ns}.{n}', why=failed.get(n, failed.get('*', 'not found in the source'))))
-            else:
-                report['missing'].append(dict(fn=f'{ns}.{n}', why=failed.get(n, '')))
-        pending = [n for n in names if n in texts]
-        while pending:
-            progress = False
-            for n in list(pending):
-                deps = set(re.findall(re.escape(ns) + r'\.(\w+)', texts[n])) - {n}
-                if deps <= emitted or not (deps & set(pending)):
-                    parts.append(texts[n]); parts.append('')
-                    emitted.add(n); pending.remove(n); progress = True
-            if not progress:
-                for n in pending:
-                    parts.append(texts[n]); parts.append('')
-                break
-        parts.append(f'end {ns}')
-        parts.append('')
-    new = '\n'.join(parts)
-    os.makedirs(os.path.dirname(OUT), exist_ok=True)
-    if not os.path.exists(OUT) or open(OUT).read() != new:
-        open(OUT, 'w').write(new)
-    json.dump(report, open(os.path.join(VERIF, 'lean', 'CB', 'Gen', 'report.json'), 'w'), indent=1)
+    reg = {}     # unit key -> (namespace, signatures of the functions translated NOW)
+    STRUCTS.clear()
+    for fname, imports, units in FILES:
+        out_path = os.path.join(GEN, fname)
+        last = read_last(out_path)
+        parts = ['/- GENERATED by tools/translate.py from /repo on every check run. Do not edit. -/'] + [(f'import {m}' if m and not m.startswith('set_option') else (m or '')) for m in imports] + ['']
+        for u in units:
+            rel, ns, self_ty, desc = u['rel'], u['ns'], u['self_ty'], u['desc']
+            path = os.path.join(REPO, rel)
+            parts.append(f'/-! {desc} ({rel}) -/')
+            parts.append(f'namespace {ns}')
+            if u.get('struct'):
+                # `struct Name { field: intty, .. }` -> a lean structure with the same field names
+                sname = u['struct']
+                stext = None
+                try:
+                    fields = parse_struct(open(path).read(), sname)
+                    stext = f'structure {sname} where\n' + '\n'.join(f'  {f} : {lean_ty(t)}' for f, t in fields)
+                    report['translated'].append(f'{ns}.{sname} (struct)')
+                except (Unsupported, OSError) as ex:
+                    stext = last.get((ns, 'structure ' + sname))
+                    fields = [(f, int(w)) for f, w in re.findall(r'^  (\w+) : BitVec (\d+)$', stext or '', re.M)]
+                    report['kept_last' if stext else 'missing'].append(dict(fn=f'{ns}.{sname} (struct)', why=str(ex)))
+                if stext:
+                    STRUCTS[sname] = (f'{ns}.{sname}', fields)
+                    parts.append(stext); parts.append('')
+            ext = dict(choice=reg.get('choice'), use=[reg[k] for k in u.get('use', []) if k in reg])
+            try:
+                order, out, failed, sigs = translate_file(path, ns, self_ty, u.get('want'), u.get('private', False), ext)
+            except (Unsupported, OSError) as ex:
+                order, out, failed, sigs = [], {}, {'*': str(ex)}, {}
+            reg[u['key']] = (ns, sigs)
+            names = list(order)
+            for w in u.get('want') or []:
+                if w not in names:
+                    names.append(w)      # a wanted function that is not in the source any more
+            for (lns, n) in last:
+                if lns == ns and n not in names and not n.startswith('structure '):
+                    names.append(n)      # a function that vanished from the source: keep the last translation
+            # emit in dependency order: a definition after everything it calls
+            emitted = set()
+            texts = {}
+            for n in names:
+                if n in out:
+                    texts[n] = out[n]; report['translated'].append(f'{ns}.{n}')
+                elif (ns, n) in last:
+                    texts[n] = last[(ns, n)]; report['kept_last'].append(dict(fn=f'{ns}.{n}', why=failed.get(n, failed.get('*', 'not found in the source'))))
+                else:
+                    report['missing'].append(dict(fn=f'{ns}.{n}', why=failed.get(n, failed.get('*', 'not found in the source') if u.get('want') else '')))
+            pending = [n for n in names if n in texts]
+            while pending:
+                progress = False
+                for n in list(pending):
+                    deps = set(re.findall(re.escape(ns) + r'\.(\w+)', texts[n])) - {n}
+                    if deps <= emitted or not (deps & set(pending)):
+                        parts.append(texts[n]); parts.append('')
+                        emitted.add(n); pending.remove(n); progress = True
+                if not progress:
+                    for n in pending:
+                        parts.append(texts[n]); parts.append('')
+                    break
+            parts.append(f'end {ns}')
+            parts.append('')
+        new = '\n'.join(parts)
+        os.makedirs(GEN, exist_ok=True)
+        if not os.path.exists(out_path) or open(out_path).read() != new:
+            open(out_path, 'w').write(new)
+    json.dump(report, open(os.path.join(GEN, 'report.json'), 'w'), indent=1)
     if '-v' in sys.argv:
         print(json.dumps(report, indent=1))
 
